@@ -344,10 +344,7 @@ func runC20(c *gen.Ctx) error {
 
 	// (b) every single-bit flip and every cut of reference streams, followed by valid messages
 	jobs = nil
-	nref := 1
-	if th {
-		nref = len(ref)
-	}
+	nref := len(ref)
 	for _, enc := range encs {
 		for _, p := range ref[:nref] {
 			n := len(c20Compress(enc, p))
@@ -366,7 +363,7 @@ func runC20(c *gen.Ctx) error {
 	// (c) random histories with random payloads 0..64 KiB, also through tracer.GetDecompressor,
 	//     stray reads between messages, and the unspecified enum value 0 (identity)
 	jobs = nil
-	nRand := 240
+	nRand := 600
 	if th {
 		nRand = 6000
 	}
@@ -414,7 +411,7 @@ func runC20(c *gen.Ctx) error {
 
 	// (d) pooled compressors
 	jobs = nil
-	nComp := 120
+	nComp := 300
 	if th {
 		nComp = 3000
 	}
